@@ -370,7 +370,7 @@ def cases(rng, tier):
                         continue
                     out.append({"payload": pay, "coding": coding, "framing": framing, "chunks": [3, 11], "ext": (2 if coding == "gzip" else 3 if coding == "identity" else False), "segs": [7, 1, 64], "decode": True,
                                 "calls": [list(c) for c in calls], "finish": list(fin)})
-    for _ in range(3000 if tier == "quick" else 200000):
+    for _ in range(8000 if tier == "quick" else 200000):
         out.append(one_case(rng))
     return out
 
